@@ -22,10 +22,12 @@ from pyvc.sym import cmp
 
 ASSUMPTIONS = [
     'functional scope: stage 1 - Short-descriptor format or MMU off, Long-descriptor format outside Hyp mode, both with and without the '
-    'Virtualization Extensions configured (stage 2 inactive: Secure state or HCR.VM == 0; the Long-descriptor unit with the extensions '
-    'present runs in the thorough tier only), and the Hyp-mode Long-descriptor walk with HSCTLR.M == 1',
+    'Virtualization Extensions configured (stage 2 inactive: Secure state or HCR.VM == 0; the Long-descriptor '
+    'unit with the extensions present runs in the thorough tier only, about 35 minutes), and the Hyp-mode Long-descriptor walk with HSCTLR.M == 1',
     'no functional specification for the second stage of translation and for Hyp mode with HSCTLR.M == 0: safety units only (no host '
-    'error, termination, frame, ownership, 40-bit result); stage 2 with the stage 1 MMU on runs in the thorough tier only',
+    'error, termination, frame, ownership, 40-bit result) for Hyp mode, for stage 2 with the stage 1 MMU off and for second_stage_translate() '
+    'on its own; translate_address_v with stage 1 on AND stage 2 active is not explored as a whole (its parts are: the stage 1 units, '
+    'second_stage_translate, the stage 2 walk through the stage-1-off unit)',
     'a configuration with the Virtualization Extensions also has the Security Extensions and LPAE (architectural requirement)',
     'SCTLR.HA == 0 (no hardware management of the access flag); SCTLR.TRE == 1 (with TRE == 0 the implementation calls the mock '
     'remap_regs_have_reset_values() and raises NotImplementedError on every walk)',
@@ -639,7 +641,9 @@ def unit_s2_of_s1walk():
 def units(tier):
     us = [unit(), unit_ld(), unit(True), unit_ld(True, True), unit_s2_of_s1walk()] + [unit_safety(w) for w in ('hyp', 'stage2,s1 off')]
     if tier == 'thorough':
-        # (the Long-descriptor walk with the Virtualization Extensions present and the combination "stage 1 on + stage 2" explore
-        # several 10^5 paths: thorough tier only; the quick tier covers stage 2 with the stage 1 MMU off and Hyp mode)
-        us += [unit_ld(True), unit_safety('stage2,s1 on')]
+        # the Long-descriptor walk with the Virtualization Extensions present (stage 2 inactive): 5 * 10^5 obligations, about 35 minutes
+        us.append(unit_ld(True))
+    # (translate_address_v with stage 1 on AND stage 2 active, explored as a whole, exceeds the merge budget of the engine
+    # ("merge region with more than 512 outcomes": undecided) and is not registered; tools/wip/modular_stage2.patch holds the
+    # modular version in progress - stage 2 walks under the contract S2WALK)
     return us
